@@ -210,6 +210,10 @@ def make_image(rng, cls, shp, C, dtype, mask_kind, constant=None):
         if rng.random() < 0.25:
             # pixel positions kept as whole numbers (integer-typed landmarks are ordinary landmarks)
             s.points = np.round(s.points).astype([np.int64, np.uint16, np.int32][rng.integers(0, 3)])
+        if rng.random() < 0.25:
+            # an annotated group (an outline with a few named corners of its own)
+            import menpo.shape as _ms18
+            s.landmarks["corners"] = _ms18.PointCloud(np.asarray(s.points[:2], dtype=float).copy())
         im.landmarks["g%d" % g] = s
     return im
 
